@@ -297,12 +297,15 @@ fn signature(kind: &str, why: &str, path: &Value) -> String {
 /// value, one slice per extend batch) and `FlatStack<MirrorRegion<usize>, S>` (copy / extend).
 /// Judged as C01 (a push may not panic and reads back), C02 (earlier items unchanged) and C03 (the stack is
 /// the sequence of copies).
-fn through_region<S>(path: &[Value], why: &mut Vec<String>)
+fn through_region<S>(path: &[Value], why: &mut Vec<String>, forms: bool)
 where
     S: IndexContainer<usize> + Clone + serde::Serialize + serde::de::DeserializeOwned + 'static,
 {
     use flatcontainer::{FlatStack, MirrorRegion, Push, Region, SliceRegion};
     let mut r = SliceRegion::<MirrorRegion<usize>, S>::default();
+    // C20: a twin fed the same slices as READ ITEMS of another region (pushed element by element by the crate)
+    // next to the subject fed plain slices (bulk path): equal indices, equal reads
+    let mut twin = SliceRegion::<MirrorRegion<usize>, S>::default();
     let mut st = FlatStack::<MirrorRegion<usize>, S>::default();
     let mut issued: Vec<((usize, usize), Vec<usize>)> = vec![];
     let mut copied: Vec<usize> = vec![];
@@ -313,6 +316,17 @@ where
                 "push" | "extend" => {
                     let xs: Vec<usize> = if name == "push" { vec![word(&op["x"])] } else { op["xs"].as_array().map(|a| a.iter().map(word).collect()).unwrap_or_default() };
                     let idx = r.push(xs.as_slice());
+                    if forms {
+                        let mut donor = SliceRegion::<MirrorRegion<usize>, S>::default();
+                        let _ = donor.push([0usize, 1].as_slice());
+                        let di = donor.push(xs.as_slice());
+                        let _ = donor.push([2usize].as_slice());
+                        let ti = twin.push(donor.index(di));
+                        let got: Vec<usize> = twin.index(ti).iter().collect();
+                        if ti != idx || got != xs {
+                            return Err(format!("form-differs: slice form returned {:?}, read-item form {:?} reading {:?} for {:?}", idx, ti, got, xs));
+                        }
+                    }
                     issued.push((idx, xs.clone()));
                     if name == "push" {
                         st.copy(xs[0]);
@@ -323,6 +337,7 @@ where
                 }
                 "clear" => {
                     r.clear();
+                    twin.clear();
                     st.clear();
                     issued.clear();
                     copied.clear();
@@ -344,6 +359,10 @@ where
         match res {
             Err(m) => {
                 why.push(format!("through-region-panic-at-step-{i}:{}", m.chars().take(120).collect::<String>()));
+                return;
+            }
+            Ok(Err(m)) if m.starts_with("form-differs") => {
+                why.push(format!("through-region-{m}"));
                 return;
             }
             Ok(Err(m)) => {
@@ -502,12 +521,13 @@ pub fn replay_edge(edge: &Value, prop: &str, rep: &mut Report) {
         }
         return;
     }
-    if matches!(prop, "C01" | "C02" | "C03") {
+    if matches!(prop, "C01" | "C02" | "C03" | "C20") {
         let mut why: Vec<String> = vec![];
+        let forms = prop == "C20";
         match kind {
-            "opt" => through_region::<IndexOptimized>(path, &mut why),
-            "list" => through_region::<List>(path, &mut why),
-            "vec" => through_region::<Vec<usize>>(path, &mut why),
+            "opt" => through_region::<IndexOptimized>(path, &mut why, forms),
+            "list" => through_region::<List>(path, &mut why, forms),
+            "vec" => through_region::<Vec<usize>>(path, &mut why, forms),
             _ => {
                 rep.case(kind, false);
                 return;
